@@ -4,6 +4,7 @@
 import GeonumModel.Lemmas.AngleNewTotal
 import GeonumModel.Spec.RealWitness
 import GeonumModel.Lemmas.Exact
+import GeonumModel.Lemmas.ExactAdd
 
 set_option linter.unusedSectionVars false
 set_option linter.unusedVariables false
@@ -130,6 +131,48 @@ theorem newFromCartesian_real (x y : ℝ) :
     unfold Angle.newFromCartesian
     rw [lit_real.2.1]; rfl
   rw [hdef, hT, hq]
+
+/-- (E) **a negative argument becomes a forward rotation of fewer than two turns** — at most one turn (blade ≤ 4, exactly 4 only
+    with remainder 0) unless it is an exact (integer) quarter-turn count, which lands on blade 3…6 -/
+theorem negative_forward_real {p d : ℝ} (hneg : p * Real.pi / d < 0) (hb : |p * Real.pi / d| ≤ 2 ^ 42) :
+    (Angle.new p d).blade < 8 ∧
+    ((feq d (two : ℝ) && feq (FloatLike.fract p) (zero : ℝ)) = false →
+      (Angle.new p d).blade ≤ 4 ∧ ((Angle.new p d).blade = 4 → (Angle.new p d).rem = 0)) := by
+  have hpi := Real.pi_pos
+  by_cases hfast : (feq d (two : ℝ) && feq (FloatLike.fract p) (zero : ℝ)) = true
+  · refine ⟨?_, fun h => by rw [hfast] at h; cases h⟩
+    rw [Bool.and_eq_true] at hfast
+    have hd2 : d = 2 := by
+      have := hfast.1; rw [lit_real.2.2.1, r_eq] at this; simpa using this
+    obtain ⟨k, hk⟩ : ∃ k : ℤ, p = k := by
+      have := (fract_spec (F := ℝ) (a := p) trivial).2
+      simp only [val_id] at this
+      apply this.mp
+      have h2 := hfast.2; rw [lit_real.1, r_eq] at h2; simpa using h2
+    have hp0 : p < 0 := by
+      rw [hd2] at hneg
+      by_contra hc; push Not at hc
+      have : 0 ≤ p * Real.pi / 2 := by positivity
+      linarith
+    have hk0 : k < 0 := by have : (k : ℝ) < 0 := by rw [← hk]; exact hp0
+                           exact_mod_cast this
+    have hkb : |k| < 2 ^ 50 := by
+      rw [hd2, hk, abs_of_neg (by rw [← hk, ← hd2]; exact hneg)] at hb
+      have h3 := Real.pi_gt_three
+      have : -(k : ℝ) ≤ 2 ^ 42 := by nlinarith
+      rw [abs_of_neg hk0]
+      have : ((-k : ℤ) : ℝ) < 2 ^ 50 := by push_cast; have : (2:ℝ) ^ 42 < 2 ^ 50 := by norm_num
+                                           linarith
+      exact_mod_cast this
+    obtain ⟨n, hn, _, _, hn6, _⟩ := new_negInt_two (F := ℝ) k hk0 hkb
+    have hof : (FloatLike.ofInt k : ℝ) = p := by rw [hk]; rfl
+    have htwo : (two : ℝ) = d := by rw [hd2]; exact lit_real.2.2.1
+    rw [hof, htwo] at hn
+    rw [hn]; simp only; omega
+  · have hfast' : (feq d (two : ℝ) && feq (FloatLike.fract p) (zero : ℝ)) = false := by simpa using hfast
+    obtain ⟨n, hnt, hnt0, _, hlt, _⟩ := newTotal_real p d
+    have h4 := new_blade_le_four_real hfast' (hlt hneg) hnt0
+    exact ⟨by omega, fun _ => h4⟩
 
 end E
 
